@@ -7,7 +7,7 @@ STD_ASSUME_PURE = [
 
 PROPS = {
     "C02": {
-        "lean_modules": ["RdestModel.Props.C02"],
+        "lean_modules": ["RdestModel.Props.C02", "RdestModel.Props.C02Run"],
         "cases": {"quick": 14, "thorough": 700},
         "rule": "cases = end-to-end runs (the count in `cases`) plus 25 manager histories per run: the C12 event histories on the real Session "
                 "(connect, bitfield, have, choke/unchoke, interest, PieceDone, PieceCancel, kill; end game and normal mode), compared step by step "
